@@ -39,19 +39,28 @@ def run(ctx):
     pushes = q.calls("push")
     ctx.check(len(pushes) == 8, "append", "count", ctx.loc(ap), "append_record has 8 push sites (4 scalar series + 4 per-level series)", "append_record has %d push sites" % len(pushes))
     loop_next = [c for c in q.calls("next") if q.cfg.in_loop(c.b)]
-    rng_ok = False
-    if len(loop_next) == 1:
-        s = StepShape.__new__(StepShape)
-        s.q = q
-        ch = StepShape.iter_chain(s, loop_next[0])
-        if ch and ch[:-1] == ["into_iter"] and ch[-1][0] == "agg" and ch[-1][2].endswith("Range::Range"):
-            lo, hi = ch[-1][3]
-            rng_ok = lo[0] == "const" and lo[3] == 0 and hi[0] == "const" and "N" in str(hi[2])
-    ctx.check(rng_ok, "append", "full-range", ctx.loc(ap), "the level loop ranges over 0..N (every published level)", "the level loop does not range over exactly 0..N")
+    # the level loop, read through its symbolic item (analysis/iterelem.py): `for i in 0..N`, `iter().zip(..).enumerate()`
+    # and friends all give "position i of the level arrays"; restricting / reordering adapters are not interpreted
+    from analysis.iterelem import loop_item, rewrite, I
+    sym, bounds = loop_item(q, loop_next[0]) if len(loop_next) == 1 else (None, [])
+    l2_fields = {x["name"]: x["ty"] for x in ctx.prog.adt_fields("bourse_book::types::Level2Data")}
+    rng_ok = sym is not None and bool(bounds)
+    for bd in bounds:
+        if bd[0] == "range":
+            rng_ok = rng_ok and bd[2][0] == "const" and "N" in str(bd[2][2])
+        else:
+            root, ns = names_of(bd[1])
+            ty = l2_fields.get(ns[-1], "") if ns and root[0] == "param" and root[2] == "record" else (rec_fields.get(ns[0], {}).get("ty", "") if ns and root[0] == "param" and root[1] == 1 else "")
+            rng_ok = rng_ok and ("; N]" in ty)
+    ctx.check(rng_ok, "append", "full-range", ctx.loc(ap), "the level loop visits every published level 0..N exactly once (%s)" % ("; ".join(b[0] for b in bounds) or "-"),
+              "the level loop does not range over exactly the N published levels (restricting / unrecognised iterator chain)")
     seen = set()
     for c in pushes:
-        root, tgt = names_of(c.args[0])
-        _r2, src = names_of(c.args[1])
+        a0, a1 = c.args[0], c.args[1]
+        if sym is not None:
+            a0, a1 = rewrite(a0, loop_next[0], sym), rewrite(a1, loop_next[0], sym)
+        root, tgt = names_of(a0)
+        _r2, src = names_of(a1)
         key = tuple(x for x in tgt if x != "[]")[:2]
         want = PUSH_TABLE.get(key)
         lvl = "[]" in tgt
@@ -60,17 +69,18 @@ def run(ctx):
             srcn = [x for x in src if x != "[]"]
             ok = srcn[:1] == [want[0]] and (srcn[1:] == ([want[1]] if want[1] is not None else []))
             ok = ok and (("[]" in src) == lvl)
+            ok = ok and _r2[0] == "param" and _r2[2] == "record"
         if ok and lvl:
-            # same index expression on both sides, and it is the loop variable
-            i1 = [x for x in walk(c.args[0]) if x[0] == "index"]
-            i2 = [x for x in walk(c.args[1]) if x[0] == "index"]
-            ok = bool(i1 and i2) and i1[0][2] == i2[0][2] and any(y[0] == "call" and y[4] == "next" for y in walk(i1[0][2]))
+            # same position on both sides, and it is the loop position
+            i1 = [x for x in walk(a0) if x[0] == "index"]
+            i2 = [x for x in walk(a1) if x[0] == "index"]
+            ok = bool(i1 and i2) and i1[0][2] == I and i2[0][2] == I
         in_loop = q.cfg.in_loop(c.b)
         only_some = all(a[0] == "variant" and a[2] == ("Some",) for a in c.guards)
         ok = ok and (in_loop == lvl) and only_some
         seen.add(key)
         ctx.check(ok, "append", "push|%s" % ".".join(key), c.loc(), "self.%s%s <- record.%s%s" % (".".join(key), "[i]" if lvl else "", want[0] if want else "?", ("[i].%s" % want[1]) if want and want[1] else ""),
-                  "series %s is fed from %s [%s]" % (render(c.args[0]), render(c.args[1]), c.gtext()))
+                  "series %s is fed from %s [%s]" % (render(a0), render(a1), c.gtext()))
     ctx.check(seen == set(PUSH_TABLE), "append", "all-series", ctx.loc(ap), "all 8 series groups are appended to", "series without a push: %s" % sorted(set(PUSH_TABLE) - seen))
     inner = [h for h in q.body.loop_heads()]
     ctx.check(len(inner) == 1 and q.cfg.loop_runs_to_completion(inner[0])[0], "append", "one-loop", ctx.loc(ap), "one level loop that runs over every level (no early exit), straight-line body",
@@ -139,11 +149,18 @@ def step_rules(ctx, m, owners):
                     # take(ASSETS) over an array of length ASSETS keeps every element
                     tk = [c for c in sq.calls("take") if "Iterator" in (c.term.j.get("trait") or c.resolved)]
                     take_ok = len(tk) == 1 and "ASSETS" in str(tk[0].args[1][2])
-                ok = base is not None and base[0] == "call" and base[4] == "get_trade_vols" and fld(base[2][0], obj) and "enumerate" in ch and take_ok
                 res = inner_next[0].result
-                idx = ("field", ("field", ("downcast", res, "Some"), "0", "std::option::Option"), "0", "")
-                val = ("field", ("field", ("downcast", res, "Some"), "0", "std::option::Option"), "1", "")
-            ctx.check(ok, "step", tag + "|asset-loop", inner_next[0].loc() if inner_next else ctx.loc(f), "per-asset recording loop enumerates get_trade_vols() over all assets",
+                if base is not None and base[0] == "agg" and base[2].endswith("Range::Range") and not adapters and "enumerate" not in ch:
+                    # `for asset in 0..ASSETS { .. trade_vols[asset] .. }`: the value is get_trade_vols()[asset]
+                    lo, hi = base[3]
+                    ok = lo[0] == "const" and lo[3] == 0 and hi[0] == "const" and "ASSETS" in str(hi[2])
+                    idx = ("field", ("downcast", res, "Some"), "0", "std::option::Option")
+                    val = None
+                else:
+                    ok = base is not None and base[0] == "call" and base[4] == "get_trade_vols" and fld(base[2][0], obj) and "enumerate" in ch and take_ok
+                    idx = ("field", ("field", ("downcast", res, "Some"), "0", "std::option::Option"), "0", "")
+                    val = ("field", ("field", ("downcast", res, "Some"), "0", "std::option::Option"), "1", "")
+            ctx.check(ok, "step", tag + "|asset-loop", inner_next[0].loc() if inner_next else ctx.loc(f), "per-asset recording loop covers every asset (enumerate over get_trade_vols() / index loop 0..ASSETS)",
                       "per-asset recording loop not recognised / restricted")
             if ok:
                 i0 = [x for x in walk(a.args[0]) if x[0] == "index"]
@@ -152,7 +169,12 @@ def step_rules(ctx, m, owners):
                 okx = bool(i0 and i1 and i2) and all(same(x[0][2], idx) for x in (i0, i1, i2)) and fld(i0[0][1], rec_f) and fld(i1[0][1], snap_f) and fld(i2[0][1], tv_f)
                 ctx.check(okx, "step", tag + "|asset-index", a.loc(), "records[i] <- snapshot[i] and trade_vols[i] use the same asset index i",
                           "asset indexes differ: %s / %s / %s" % (render(a.args[0]), render(a.args[1]), render(t.args[0])))
-                ctx.check(same(t.args[1], val), "step", tag + "|tradevol-src", t.loc(), "trade_vols[i] <- get_trade_vols()[i] (the enumerated value)", "trade_vols[i] <- %s" % render(t.args[1]))
+                if val is not None:
+                    okv = same(t.args[1], val)
+                else:
+                    v = t.args[1]
+                    okv = v[0] == "index" and same(v[2], idx) and v[1][0] == "call" and v[1][4] == "get_trade_vols" and fld(v[1][2][0], obj)
+                ctx.check(okv, "step", tag + "|tradevol-src", t.loc(), "trade_vols[i] <- get_trade_vols()[i]", "trade_vols[i] <- %s" % render(t.args[1]))
                 gv = [c for c in sq.calls("get_trade_vols")]
                 ctx.check(len(gv) == 1 and after(gv[0]), "step", tag + "|tradevol-after", gv[0].loc() if gv else ctx.loc(f), "the counters are read after the processing loop")
         # snapshot refreshed before recording in the same step (C10 checks its source)
